@@ -143,9 +143,67 @@ def propagate_function(f, ref_names):
     return done
 
 
+_GLOBALS = None
+
+
+def ref_globals():
+    global _GLOBALS
+    if _GLOBALS is None:
+        import json
+        import os
+        try:
+            with open(os.path.join(os.path.dirname(alpha.REF_PATH), 'globals.json')) as h:
+                _GLOBALS = {k: set(v) for k, v in json.load(h).items()}
+        except Exception:
+            _GLOBALS = {}
+    return _GLOBALS
+
+
+def propagate_module_constants(tree, relpath):
+    """new module-level names bound once to a constant / a dotted name (`_OFFSET = 33`, `_LETTERS = string.ascii_letters`) are substituted
+    into the functions of the module (where they are not shadowed by a local binding)"""
+    known = ref_globals().get(relpath)
+    if known is None:
+        return []
+    cands = {}
+    counts = {}
+    for st in tree.body:
+        for t in ast.walk(st) if isinstance(st, (ast.Assign, ast.AugAssign, ast.AnnAssign, ast.For, ast.With, ast.Import, ast.ImportFrom, ast.FunctionDef, ast.ClassDef)) else []:
+            if isinstance(t, ast.Name) and isinstance(t.ctx, ast.Store):
+                counts[t.id] = counts.get(t.id, 0) + 1
+        if isinstance(st, ast.Assign) and len(st.targets) == 1 and isinstance(st.targets[0], ast.Name) and st.targets[0].id not in known:
+            v = st.value
+            simple = isinstance(v, ast.Constant) or (isinstance(v, ast.Attribute) and all(isinstance(x, (ast.Attribute, ast.Name)) for x in ast.walk(v) if not isinstance(x, ast.expr_context))) \
+                or (isinstance(v, (ast.Tuple,)) and all(isinstance(e, ast.Constant) for e in v.elts))
+            if simple:
+                cands[st.targets[0].id] = v
+    cands = {k: v for k, v in cands.items() if counts.get(k, 0) == 1}
+    if not cands:
+        return []
+    done = []
+    for q, f in alpha.functions(tree):
+        bound = alpha.bound_names(f)
+        use = {k: v for k, v in cands.items() if k not in bound}
+        if not use:
+            continue
+
+        class S(ast.NodeTransformer):
+            def visit_Name(self, node):
+                if node.id in use and isinstance(node.ctx, ast.Load):
+                    done.append((q, node.id))
+                    return ast.copy_location(copy.deepcopy(use[node.id]), node)
+                return node
+        for ch in list(ast.iter_child_nodes(f)):
+            S().visit(ch)
+    return sorted(set(done))
+
+
 def apply(tree, relpath):
     ref = alpha.reference().get(relpath)
     out = {}
+    mc = propagate_module_constants(tree, relpath)
+    if mc:
+        out['<module constants>'] = mc
     if not ref:
         return out
     for q, f in alpha.functions(tree):
